@@ -382,6 +382,61 @@ async fn faulty_subscriber(ctx: &mut Ctx, ty: &str, nsubs: usize, seed: u64, cas
     }
 }
 
+/// Topics are byte strings, not text: subscriptions that are not valid UTF-8 filter exactly
+/// like any other (prefix match on the raw bytes, one cancel per equal subscribe).
+async fn binary_topics(ctx: &mut Ctx, ty: &str, case: &Value) {
+    let mut sock = Sock::new(ty, None);
+    let Ok(sub) = Peer::attach(&sock, "SUB", Some(b"bin")).await else {
+        ctx.inconclusive("C11 attach".into());
+        return;
+    };
+    let mut sink = Vec::new();
+    let steps: Vec<(u8, Vec<u8>)> = vec![(1, vec![0xFF, 0x01]), (1, vec![0xFE]), (0, vec![0xFE]), (1, vec![0xE9, 0xC3, 0x00]), (1, vec![0xC3]), (0, vec![0xFF, 0x01])];
+    let probes: Vec<Vec<u8>> = vec![
+        vec![0xFF, 0x01, 0x55],
+        vec![0xFF],
+        vec![0xFE, 0x01],
+        vec![0xEF, 0xBF, 0xBD, 0x01], // what a lossy text conversion turns 0xFF 0x01 into
+        vec![0xEF, 0xBF, 0xBD],
+        vec![0xE9, 0xC3, 0x00, 0x00],
+        vec![0xC3, 0xA9],
+        vec![0xC2],
+    ];
+    let mut set: Vec<Vec<u8>> = Vec::new();
+    let mut seen = 0usize;
+    let mut seq = 0u32;
+    for (op, topic) in steps {
+        let mut f = vec![op];
+        f.extend_from_slice(&topic);
+        sub.send(&[f]);
+        if op == 1 {
+            set.push(topic.clone());
+        } else if let Some(i) = set.iter().position(|t| *t == topic) {
+            set.remove(i);
+        }
+        quiesce(ctx, &mut sock, &mut sink).await;
+        for p in &probes {
+            let mut msg: Frames = vec![p.clone()];
+            msg.extend(rc::tagged(14, seq, &[]));
+            seq += 1;
+            let _ = sim::complete(sock.send(&msg)).await;
+            let msgs = sub.out_msgs().unwrap_or_default();
+            let newm = msgs.len() - seen.min(msgs.len());
+            seen = msgs.len();
+            let want = model_matches(&set, p) as usize;
+            ctx.count("delivery_decisions_with_non_utf8_topics");
+            if newm != want {
+                ctx.violation_with(
+                    &format!("C11/{}/{ty}", if newm > want { "non-matching-message-delivered" } else { "matching-message-not-delivered" }),
+                    format!("subscriptions (raw bytes) {:?}; publish with first frame {}: {newm} copies delivered, model says {want}", set.iter().map(|t| rc::hex(t)).collect::<Vec<_>>(), rc::hex(p)),
+                    case.clone(),
+                );
+                return;
+            }
+        }
+    }
+}
+
 /// The last publish is larger than what the connection takes at once (a kernel socket
 /// buffer), the subscriber keeps reading, and nothing is published afterwards: at
 /// quiescence the matching message has been delivered in full.
@@ -545,6 +600,7 @@ impl Prop for C11 {
             for old in ["open", "closed-unnoticed", "closed-noticed"] {
                 v.push(json!({"kind": "resub", "ty": ty, "old": old}));
             }
+            v.push(json!({"kind": "binary_topics", "ty": ty}));
             for (size, window) in [(300_000usize, 65_536usize), (1_000_000, 212_992), (100_000, 8_192)] {
                 v.push(json!({"kind": "large_last", "ty": ty, "size": size, "window": window}));
             }
@@ -596,6 +652,10 @@ impl Prop for C11 {
                 ctx.sample("faulty_subscriber", || case.clone());
                 sim::run(faulty_subscriber(ctx, &ty, u(case, "subs") as usize, u(case, "seed"), case));
             }
+            "binary_topics" => {
+                ctx.eval(hash_str(&case.to_string()), true);
+                sim::run(binary_topics(ctx, &ty, case));
+            }
             "large_last" => {
                 ctx.eval(hash_str(&case.to_string()), true);
                 ctx.sample("large_last", || case.clone());
@@ -623,6 +683,7 @@ impl Prop for C11 {
             ("exhaustive_histories", 2 * 7239),
             ("random_histories", 400),
             ("large_last_publishes", 6),
+            ("delivery_decisions_with_non_utf8_topics", 90),
             ("histories_with_empty_identity_subscribers", 50),
             ("delivery_decisions_beside_a_failing_subscriber", 2000),
             ("publishes_beside_a_failing_subscriber/ConnectionReset", 200),
